@@ -9,7 +9,7 @@
 using namespace datasketches;
 namespace vf { namespace c11 {
 
-unsigned variants(bool thorough) { return thorough ? 20 : 4; }
+unsigned variants(bool thorough) { return thorough ? 20 : 3; }
 
 // ------------------------------------------------------------------ tuple
 struct str_policy {
